@@ -107,6 +107,10 @@ def sample_doc(voc, variant=0):
         d.wasAttributedTo(e, ag)
     if variant >= 4:
         d.entity("ex:é-中", {"ex:q": d.valid_qualified_name("ex:e")})
+    if variant in (1, 5):
+        # line boundaries other than LF inside a value (NEL, LINE SEPARATOR, PARAGRAPH SEPARATOR):
+        # valid in every format; text and binary targets must carry the same characters
+        d.entity("ex:lines", {"ex:v": "Größe\u0085Maß\u2028x\u2029y"})
     b = d.bundle("ex:b")
     b.agent("ex:ag")
     return d
